@@ -7,6 +7,7 @@
   idempotent on them (`Idem`, the C04 theorem; `idem_of_frag` discharges it for the C04 fragment).
 -/
 import PgProofs.SymTyped
+import PgGen.C03Tables
 namespace Pg.C03
 open Pg.Typing
 
@@ -442,5 +443,25 @@ example : (dictPrim envT false (fun _ => false) ⟨[Field.mk (.const "x") (.int 
     (.plain (.int (-1)))).2 = some .value := by rfl
 example : (dictPrim envT false (fun _ => false) ⟨[Field.mk (.const "x") (.int (some 0) none F0)], [("x", .int 1)]⟩ "q"
     (.plain (.int 1))).2 = some .key := by rfl
+
+/-! ## Generated obligations (T-GUARD facts of the current source, lean/PgGen/C03Tables.lean)
+
+The model routes every list growth through `listPrim` (which checks `max_size` and formalizes) and
+every shrink through a `min_size` check; every dict write through `dictPrim`.  These obligations
+tie those modelling decisions to the source text: they stop compiling, naming the entry point, when
+a mutator loses its size check or bypasses the write primitive. -/
+
+theorem C03_table_list_prim :
+    Gen.listPrimChecksMax = true ∧ Gen.listPrimFormalizes = true ∧ Gen.listFormalizeApplies = true := by decide
+
+/-- Every growing entry point stores only what the write primitive returned. -/
+theorem C03_table_list_growers : ∀ m ∈ Gen.listGrowers, m.2.1 = true ∧ m.2.2 = false := by decide
+
+/-- Every shrinking entry point consults `min_size`. -/
+theorem C03_table_list_shrinkers : ∀ m ∈ Gen.listShrinkers, m.2 = true := by decide
+
+theorem C03_table_dict :
+    Gen.dictPrimFormalizes = true ∧ Gen.dictFormalizeApplies = true ∧
+    ∀ m ∈ Gen.dictWriters, m.2.1 = true ∧ m.2.2 = false := by decide
 
 end Pg.C03
